@@ -906,6 +906,35 @@ func ruleKEYSEP(c *Checker) {
 		c.decide(okSalt, "KEYSEP", "split|all four cipher states salted with the chaining key", split.Pos(), "InitializeKeyWithSalt(chainingKey, key) for both directions on both roles",
 			"not every transport cipher state is salted with the handshake's chaining key: the two ends rotate to different keys")
 	}
+	// ... and the expansion itself is keyed by the chaining key - the one value of the symmetric state
+	// that depends on the DH outputs. (The handshake digest is public: anyone who recorded the
+	// handshake can recompute keys derived from it.)
+	{
+		fCK := w.Field("mailbox.symmetricState.chainingKey")
+		okSecret, n := fCK != nil, 0
+		for _, ci := range findCalls(split, func(ci ssa.CallInstruction) bool {
+			sc := ci.Common().StaticCallee()
+			return sc != nil && sc.Name() == "New" && sc.Pkg != nil && strings.HasSuffix(sc.Pkg.Pkg.Path(), "hkdf")
+		}) {
+			n++
+			secretOK := false
+			// Noise: HKDF(chaining_key, zerolen) - the chaining key is the HKDF key (the salt argument
+			// of x/crypto/hkdf), the input key material is empty
+			if sl, ok := ci.Common().Args[2].(*ssa.Slice); ok && sl.Low == nil && sl.High == nil {
+				if fa, ok := sl.X.(*ssa.FieldAddr); ok && structFieldOf(fa) == fCK {
+					secretOK = true
+				}
+			}
+			if k, ok := ci.Common().Args[1].(*ssa.Const); !ok || k.Value != nil {
+				secretOK = false
+			}
+			if !secretOK {
+				okSecret = false
+			}
+		}
+		c.decide(okSecret && n == 1, "KEYSEP", "split|the expansion is keyed by the chaining key", split.Pos(), "hkdf.New(sha256, empty, chainingKey[:], empty) as Noise prescribes",
+			"the transport keys are not expanded from the (whole) chaining key: they no longer depend on the DH secrets of the handshake, or on something an observer of the handshake can compute")
+	}
 	// who may write sendCipher/recvCipher
 	for _, f := range []*types.Var{fSendC, fRecvC} {
 		for _, fa := range w.FieldAddrs(f) {
